@@ -132,7 +132,7 @@ func main() {
 	for _, h := range corpus() {
 		replayHist(h)
 	}
-	for i := 0; i < run.N(150, 2500); i++ {
+	for i := 0; i < run.N(150, 6000); i++ {
 		r := run.R.Fork(uint64(i))
 		capacity := uint64(3 + r.Intn(7))
 		g, err := lsx.NewGen(r, "cache", capacity, r.Chance(1, 4))
